@@ -41,8 +41,8 @@ func init() {
 	})
 	property(&Property{
 		ID:          "C06",
-		Rules:       []string{"ENCODER-CLOSE", "CARRY-OVER", "FRAME-AGREE", "READFULL-EOF", "FWD-CLOSESEND", "COMPRESS-FLAG", "READ-FAIL-NONNIL", "CLOSE-ONCE", "JSON-FRAME-TABLE", "WS-DATA-KINDS", "CLEAN-END-EOF-ONLY", "READ-DATA-FIRST", "CARRY-COUNTED", "POOL-FOREIGN", "SEND-FRAME-FLAG", "UNMARSHAL-RESETS"},
-		Decides:     "Decides only three structural necessary conditions of 'no lost byte': the gRPC-web-text byte stream is terminated; bytes a stream codec read past the current message are saved on every path and handed to the next read; the gRPC frame writer and reader (and the gRPC-web trailer frame) agree on header length, offsets and byte order. Also: a proxied half-close is sent only after a clean inbound end; a gRPC message is decompressed iff its own flag byte is set; a failed transport read never yields a nil error. Also: the compressing writer is closed once per message (a second Close returns it to its pool twice and two streams share it). Also: the JSON stream codec's framing decisions - where a message ends - follow JSON's lexical structure (JSON-FRAME-TABLE). Also: the WebSocket stream reads text and binary data frames alike; a read error is taken for a clean end only when it is io.EOF itself. Also: the proto codec never decodes with the Merge option (no merged messages on a reused destination).",
+		Rules:       []string{"ENCODER-CLOSE", "CARRY-OVER", "FRAME-AGREE", "READFULL-EOF", "FWD-CLOSESEND", "COMPRESS-FLAG", "READ-FAIL-NONNIL", "CLOSE-ONCE", "JSON-FRAME-TABLE", "WS-DATA-KINDS", "CLEAN-END-EOF-ONLY", "READ-DATA-FIRST", "CARRY-COUNTED", "POOL-FOREIGN", "SEND-FRAME-FLAG", "UNMARSHAL-RESETS", "EOF-NO-PHANTOM"},
+		Decides:     "Decides only three structural necessary conditions of 'no lost byte': the gRPC-web-text byte stream is terminated; bytes a stream codec read past the current message are saved on every path and handed to the next read; the gRPC frame writer and reader (and the gRPC-web trailer frame) agree on header length, offsets and byte order. Also: a proxied half-close is sent only after a clean inbound end; a gRPC message is decompressed iff its own flag byte is set; a failed transport read never yields a nil error. Also: the compressing writer is closed once per message (a second Close returns it to its pool twice and two streams share it). Also: the JSON stream codec's framing decisions - where a message ends - follow JSON's lexical structure (JSON-FRAME-TABLE). Also: the WebSocket stream reads text and binary data frames alike; a read error is taken for a clean end only when it is io.EOF itself. Also: the proto codec never decodes with the Merge option (no merged messages on a reused destination). Also: the end of an HTTP request stream is reported as io.EOF, never as one more (empty) message.",
 		NotDecided:  "and this is most of the property: sequence equality, fragmentation invariance, truncation behaviour, phantom/dropped messages at EOF, WebSocket end-of-stream.",
 		Assumptions: commonAssumptions,
 	})
@@ -118,7 +118,7 @@ func init() {
 	})
 	property(&Property{
 		ID:          "C17",
-		Rules:       []string{"LIMIT-IMPL", "LIMIT-STRICT", "SIGNCONV", "COMMAOK-SERVE", "READFULL-EOF", "SLICE-CAP", "READ-FAIL-NONNIL", "JSON-FRAME-TABLE", "LOOP-PROGRESS", "SCAN-INDEX-GUARDED", "READ-DATA-FIRST", "CARRY-COUNTED", "LIMIT-RETURN-BOUND"},
+		Rules:       []string{"LIMIT-IMPL", "LIMIT-STRICT", "SIGNCONV", "COMMAOK-SERVE", "READFULL-EOF", "SLICE-CAP", "READ-FAIL-NONNIL", "JSON-FRAME-TABLE", "LOOP-PROGRESS", "SCAN-INDEX-GUARDED", "READ-DATA-FIRST", "CARRY-COUNTED", "LIMIT-RETURN-BOUND", "EOF-NO-PHANTOM"},
 		Decides:     "Decides the limit-safe half: every in-repo ReadNext compares against its limit before it can return a message, strictly, and in a domain where the decoded length cannot wrap. Also: a failed transport read in RecvMsg returns a certainly non-nil error. Also: the JSON codec's scanner, as a transition table read off its loop body, agrees with JSON's lexical structure on every transition up to brace depth 4 (string start/end, backslash escapes, braces inside strings, message end exactly at the closing brace of depth 0, refusal of a surplus closing brace) and depends on nothing but its state and the current byte. Also: growcap's x += x/4 loop is entered only with x >= 4.",
 		NotDecided:  "invariance under where the reader splits the bytes (refill boundaries, carry-over exactness; the table rule assumes the current byte is buffered), the proto codec's varint handling beyond the limit/width checks, a JSON scanner that consumes more than one byte per iteration (reported undecided).",
 		Assumptions: commonAssumptions,
